@@ -59,6 +59,13 @@ def cases(tier):
     for c in ps.cases(tier, with_hist=True):
         c["tier"] = tier
         yield c
+    # a matcher object re-used for another trace (operation N = plain match of the reversed trace on the same object)
+    for hist in ([["M", 9], ["N"]], [["M", 2], ["X", 9], ["N"]]):
+        for name, pos, g in ms.special_graphs():
+            yield {"kind": "hist", "gs": ms.explicit(g), "pos": pos, "slice": "hist-special", "name": name, "T": 3, "hist": hist, "tier": tier}
+        for gs in ms.graph_slice("n3"):
+            if gs[0] == "GENERIC" and bin(gs[2]).count("1") >= 3:
+                yield {"kind": "hist", "gs": list(gs), "slice": "hist", "T": 3, "hist": hist, "tier": tier}
     # the recorded input of known finding D14 (4 nodes, 5 edges, widths 1 -> 2) is part of every run
     yield dict(D14_EXAMPLE, tier=tier)
     if tier == "thorough":
